@@ -8,6 +8,9 @@ correspond: (PsdProj: see psd_stream — generated body of psd_proj run on exact
             Duchi's threshold: proved to satisfy the KKT hypothesis of `l1_proj_kkt_*` (`duchi_theta` for sorted
             sequences over the generated `l1projSt` / `l1projCond`, `duchiTheta_kkt` for the executable model); the
             exact KKT test per case (stream duchi-kkt) stays as a run-time cross-check of the compiled driver.
+            round 4: the model's l1_proj IS the generated body Gen/ProxBody.l1projWith (merge sort for xp.sort); stream
+            stack-generated: the generated Stack._prox / util.split / util.vec / Prox.__call__ (driver op callgen) vs the
+            real Stack; stream sort-contract: numpy.sort(|x|) is a non-decreasing permutation (hypothesis SortContract).
 search:     the property's own oracle on the real code, independent of the model: Fenchel-Young / normal-cone
             optimality certificates composed over the nesting, objective comparison against perturbations,
             projection inequality, feasible => unchanged, idempotence, output shape == input shape.
